@@ -25,6 +25,24 @@ def tasks(tier):
             T.append(Task('PPolyND', 'evaluateSegmentHorner', 3, cfg, pk))
             T.append(Task('PPolyND', 'evaluate', cfg=cfg, pins=pk, pred=sig_pred(('double', 'int')), label=Task('a', 'b', cfg=cfg, pins=pk).label + ',plain'))
             T.append(Task('PPolyND', 'evaluate', cfg=cfg, pins=pk, pred=sig_pred(('double', 'int*', 'int')), label=Task('a', 'b', cfg=cfg, pins=pk).label + ',hinted'))
+            if tier == 'thorough' or nc <= 6:
+                T.append(Task('PPolyND', 'evaluate', cfg=cfg, pins=pk, pred=sig_pred(('vector', 'int')), label=Task('a', 'b', cfg=cfg, pins=pk).label + ',batch'))
+            T.append(Task('PPolyND', 'derivative', 1, cfg, pk))
+            ps = {'par__num_coeffs_': nc, 'p_derivative_order': k}
+            T.append(Task('PPolyND::Segment', 'evaluate', cfg=cfg, pins=ps, pred=sig_pred(('double', 'int')), setup=segment_setup,
+                          label=Task('a', 'b', cfg=cfg, pins=pk).label + ',segment'))
+    for cfg in ([{'DIM': 2, 'ORDER': None}] if tier == 'quick' else [{'DIM': 1, 'ORDER': None}, {'DIM': 2, 'ORDER': 6}]):
+        T.append(Task('PPolyND', 'operator[]', 1, cfg))
+        T.append(Task('PPolyND', 'at', 1, cfg, options={'throw_flag': 'thrown'}))
+        T.append(Task('PPolyND', 'begin', 0, cfg))
+        T.append(Task('PPolyND', 'end', 0, cfg))
+        T.append(Task('PPolyND::ConstIterator', 'operator*', 0, cfg, setup=segment_setup))
+        T.append(Task('PPolyND::ConstIterator', 'operator++', 0, cfg, setup=segment_setup))
+        for mname in ('startTime', 'endTime', 'duration'):
+            T.append(Task('PPolyND::Segment', mname, 0, cfg, setup=segment_setup, options={'no_bounds': True}))
+        for kd in (0, 1, 2):
+            T.append(Task('PPolyND', 'evaluate', cfg=cfg, pins={'num_coeffs_': 4, 'p_type': kd}, pred=sig_pred(('double', 'Deriv')),
+                          label=Task('a', 'b', cfg=cfg).label + ',nc=4,Deriv=%d' % kd))
     # findSegment does not depend on the coefficient count: keep one copy per (DIM, ORDER)
     seen, out = set(), []
     for t in T:
